@@ -39,7 +39,8 @@ def samecode_check(functions):
     items = [f for f in functions.values() if not f["file"].startswith("/root/.pyenv")]
     std = [f for f in functions.values() if f["file"].startswith("/root/.pyenv")]
     r = subprocess.run([VENV_PY, os.path.join(ROOT, "rt", "samecode.py")], input=json.dumps(items + std),
-                       capture_output=True, text=True, timeout=300)
+                       capture_output=True, text=True, timeout=300,
+                       env={**os.environ, "PYTHONPATH": os.path.join(extract.REPO, "src")})
     if r.returncode != 0:
         return {"checked": 0, "mismatch": [r.stdout[-2000:] + r.stderr[-2000:]]}
     return json.loads(r.stdout)
@@ -118,6 +119,20 @@ def check(prop, mod, a, seed, t0):
     obs = eng.obligations
     solve.discharge(eng, obs)
     solve_s = sum(ob.time for ob in obs)
+    # --- anti-vacuity: statement coverage over path ends that are not provably infeasible
+    cover = solve.cover_check(eng)
+    unreached = {}
+    for t in eng.targets:
+        if t.name in eng.unsupported or not hasattr(t, "_stmt_lines"):
+            continue
+        d = cover.get(t.name, {"reached": set(), "ends": 0, "infeasible_ends": 0})
+        got = {ln for (fq, ln) in d["reached"] if fq == t._fn_fqn}
+        miss = [ln for ln in t._stmt_lines if ln not in got and ln not in getattr(t, "dead_lines", ())]
+        miss = [ln for ln in miss if not t.is_declared_dead(ln)]
+        if miss:
+            unreached[t.name] = miss
+        eng.target_results[t.name]["path_ends"] = d["ends"]
+        eng.target_results[t.name]["infeasible_path_ends"] = d["infeasible_ends"]
     if a.explain:
         from pyvc import debug
         seen = set()
@@ -161,6 +176,8 @@ def check(prop, mod, a, seed, t0):
         for kf in b.get("known_findings", []):
             print(f"KNOWN-FINDING: property={prop} {kf}")
     # --- report
+    for tname, lines in unreached.items():
+        print(f"  [vacuity] {tname}: statements never reached on a feasible path: lines {lines}")
     if a.verbose or failing or unsupported:
         for ob in obs:
             if a.verbose or ob.status != "proved":
@@ -172,7 +189,11 @@ def check(prop, mod, a, seed, t0):
     for k in open_k:
         if k.get("obligation") and not any(kk is k for kk, _ in known_hits):
             print(f"NOTE: listed known finding no longer reproduces: {k['obligation']}")
+    printed = set()
     for ob, rp in violations:
+        if ob.name in printed:
+            continue
+        printed.add(ob.name)
         tail = "" if rp.get("confirmed") else " no-failing-input-found"
         print(f"VIOLATION property={prop} replay={rp['path']} obligation={ob.name}{tail}")
     for b in bounded_viol:
@@ -181,12 +202,15 @@ def check(prop, mod, a, seed, t0):
         print(f"UNDECIDED obligation={ob.name}")
     nproved = sum(1 for ob in obs if ob.status == "proved")
     evidence = make_evidence(prop, mod, a, seed, eng, obs, nproved, sc, bounded, unsupported, known_hits, violations,
-                             gen_s, solve_s, time.time() - t0)
+                             gen_s, solve_s, time.time() - t0, unreached)
     with open(os.path.join(ROOT, "evidence", f"{prop}.json"), "w") as f:
         json.dump(evidence, f, indent=1)
     print(f"{prop}: targets={len(eng.targets)} obligations={len(obs)} proved={nproved} "
           f"unsupported={len(unsupported)} bounded={[(b['name'], b.get('status')) for b in bounded]} "
           f"samecode={sc.get('checked')}/{len(eng.functions_under_contract)} wall={time.time() - t0:.1f}s")
+    if unreached:
+        print("CHECKER-ERROR vacuity guard: unreachable statements in", sorted(unreached))
+        return 3
     if sc.get("mismatch"):
         print("CHECKER-ERROR same-code mismatch:", sc["mismatch"][:3])
         return 3
@@ -228,7 +252,7 @@ def write_replay(prop, ob, mod, eng):
     return rp
 
 
-def make_evidence(prop, mod, a, seed, eng, obs, nproved, sc, bounded, unsupported, known_hits, violations, gen_s, solve_s, wall):
+def make_evidence(prop, mod, a, seed, eng, obs, nproved, sc, bounded, unsupported, known_hits, violations, gen_s, solve_s, wall, unreached=None):
     by_backend = {}
     for ob in obs:
         if ob.status == "proved":
@@ -247,6 +271,8 @@ def make_evidence(prop, mod, a, seed, eng, obs, nproved, sc, bounded, unsupporte
         "by_backend": by_backend, "solver_time_s": round(solve_s, 2), "vc_generation_s": round(gen_s, 2),
         "samples": samples,
         "unsupported_targets": unsupported,
+        "vacuity_guard": {"rule": "every statement of every target lies on a path end whose path condition is not refutable (z3, 3 s)",
+                          "unreached": unreached or {}},
         "same_code_check": sc,
         "bounded_standins": bounded,
         "not_decided": getattr(mod, "NOT_DECIDED", []),
